@@ -13,6 +13,20 @@ META = {
 }
 
 
+LIMIT_TY = r'^(std::option::)?Option<usize>$'
+
+
+def limit_pos(tonic, fn_suffix):
+    """0-based position, among the call arguments, of the (unique) Option<usize> parameter of a tonic function"""
+    cb = tonic.body(fn_suffix)
+    return param_of_type(cb, LIMIT_TY) - 1
+
+
+def is_limit_param(body, term):
+    t = strip_refs(term)
+    return bool(t) and t[0] == 'arg' and re.search(LIMIT_TY, body.ty(t[1])) is not None
+
+
 def run(R):
     tonic = R.crate('tonic')
     W = spec('wire')
@@ -67,37 +81,49 @@ def run(R):
         b = tonic.body('codec::encode::finish_encoding')
         R.saw(b)
         R.eq(tonic.const('codec::DEFAULT_MAX_SEND_MESSAGE_SIZE').get('v'), W['default_max_send'], 'C06.R2', 'default-send-const', 'tonic/src/codec/mod.rs', 'DEFAULT_MAX_SEND_MESSAGE_SIZE')
-        tests = []
+        slice_n = param_of_type(b, r'^&mut \[u8\]$')
+        lim_n = param_of_type(b, r'^(std::option::)?Option<usize>$')
+        is_paylen = lambda x: bool(find_terms(x, lambda y: y and y[0] == 'bin' and y[1] == 'SubWithOverflow' and const_val(y[3]) == W['header_size'] and find_terms(y[2], lambda z: is_call(z, name='len') and arg_root(z[2][0]) == slice_n)))
+        writes = prefix_layout(b)
+        R.floor('C06.R2', 'prefix writes', len(writes), 2)
+        # (a) the configured limit: payload_len <= limit accepted, else OUT_OF_RANGE
+        lim_t = None
         for bb in sorted(b.live_blocks()):
+            lt = limit_test(b, bb, is_paylen)
+            if lt is not None and is_call(strip_refs(lt['limit']), name='unwrap_or'):
+                lim_t = (bb, lt)
+        # (b) the 4 GiB bound: `len > u32::MAX as usize` or `u32::try_from(len)` failing
+        u32_t = None
+        for bb in sorted(b.live_blocks()):
+            lt = limit_test(b, bb, is_paylen)
+            if lt is not None and const_val(strip_casts(lt['limit'])) == W['u32_max']:
+                u32_t = (bb, dict(lt, how='compare'))
             t = b.term(bb)
-            if t['k'] != 'switch':
+            if t['k'] == 'switch':
+                o = b.origin(t['on'])
+                if o[0] == 'discr' and is_call(strip_refs(o[1]), name='try_from') and 'u32' in str(strip_refs(o[1])[4].get('resolved') or strip_refs(o[1])[4].get('ga')) and is_paylen(strip_refs(o[1])[2][0]):
+                    edges = b.switch_edges(bb)
+                    okv = [tg for tg, vals in edges.items() if vals == [0]]
+                    errv = [tg for tg, vals in edges.items() if vals != [0]]
+                    u32_t = (bb, dict(accept=okv, reject=errv, exact=True, op='u32::try_from', len=strip_refs(o[1])[2][0], limit=('const', W['u32_max'], {}), how='try_from'))
+        R.check(lim_t is not None and u32_t is not None, 'C06.R2', 'two-tests', site(b), 'limit test: %r, u32-range test: %r' % (lim_t is not None, u32_t is not None))
+        for tt, nm, ctor in ((lim_t, 'limit', 'out_of_range'), (u32_t, 'u32', 'resource_exhausted')):
+            if tt is None:
                 continue
-            o = mirlib.norm_cmp(b.origin(t['on']))
-            if o[0] == 'bin' and o[1] in ('Gt', 'Ge', 'Lt', 'Le'):
-                tests.append((bb, o))
-        lim_t = [(bb, o) for bb, o in tests if term_contains(o, lambda x: is_call(x, name='unwrap_or'))]
-        u32_t = [(bb, o) for bb, o in tests if const_val(o[3]) == W['u32_max'] or const_val(o[2]) == W['u32_max']]
-        R.check(len(lim_t) == 1 and len(u32_t) == 1, 'C06.R2', 'two-tests', site(b), 'limit tests: %d, u32 tests: %d' % (len(lim_t), len(u32_t)))
-        puts = b.calls(pat='BufMut::put_')
-        R.floor('C06.R2', 'prefix writes', len(puts), 2)
-        for (tb, o), nm, ctor in ((lim_t[0] if lim_t else None, 'limit', 'out_of_range'), (u32_t[0] if u32_t else None, 'u32', 'resource_exhausted')):
-            if tb is None:
-                continue
-            lenterm = show(o[2])
-            R.check(o[1] == 'Gt' and 'len(' in lenterm and 'SubWithOverflow' in lenterm, 'C06.R2', '%s:operator' % nm, site(b, tb), 'test is %s(%s, %s); required Gt(payload len, ..)' % (o[1], lenterm[:80], show(o[3])[:60]))
+            tb, lt = tt
+            R.check(lt['exact'], 'C06.R2', '%s:operator' % nm, site(b, tb), 'test %s(%s, %s): exactly the lengths above the bound are refused: %r' % (lt['op'], show(lt['len'])[:60], show(lt['limit'])[:40], lt['exact']))
             if nm == 'limit':
-                lim = strip_refs(o[3])
-                R.check(is_call(lim, name='unwrap_or') and 'arg2' in show(lim[2][0]) and const_val(lim[2][1]) == W['default_max_send'], 'C06.R2', 'limit-source', site(b, tb), 'limit = %s' % show(lim))
-            errs = [(bb, i, ops) for bb, i, p, a, ops in mirlib.aggregates(b, 'result::Result', 'Err') if p['l'] == 0
-                    and any(s == tb and (vals == ['else'] or 0 not in vals) for s, vals, tm in b.edge_guards(bb))]
-            R.check(len(errs) == 1, 'C06.R2', '%s:err' % nm, site(b, tb), 'Err returns on the true edge: %d' % len(errs))
+                lim = strip_refs(lt['limit'])
+                R.check(is_call(lim, name='unwrap_or') and arg_root(lim[2][0]) == lim_n and const_val(lim[2][1]) == W['default_max_send'], 'C06.R2', 'limit-source', site(b, tb), 'limit = %s' % show(lim))
+            rej = b.reach_ps(lt['reject'], removed={tb}) if lt['reject'] else set()
+            around = b.reach_ps(0, removed={tb})
+            errs = [(bb, i, ops) for bb, i, p, a, ops in mirlib.aggregates(b, 'result::Result', 'Err') if bb in rej and bb not in b.reach_ps(lt['accept'], removed={tb})]
+            R.check(len(errs) == 1, 'C06.R2', '%s:err' % nm, site(b, tb), 'Err values built only after the reject edge: %d' % len(errs))
             for bb, i, ops in errs:
                 R.check(is_call(strip_refs(b.origin(ops[0])), pat='Status::' + ctor), 'C06.R2', '%s:%s' % (nm, ctor), site(b, bb, i), 'status = %s' % show(b.origin(ops[0]))[:100])
-            for pb, pt in puts:
-                R.check(any(s == tb and vals == [0] for s, vals, tm in b.edge_guards(pb)), 'C06.R2', '%s:before-prefix-write-%d' % (nm, puts.index((pb, pt))), site(b, pb), 'prefix write %s guarded by the false edge of the %s test' % (pt['name'], nm))
-        # payload length = slice length - HEADER_SIZE
-        sub = [x for x in find_terms(lim_t[0][1][2] if lim_t else ('x',), lambda x: x and x[0] == 'bin' and x[1] == 'SubWithOverflow')]
-        R.check(bool(sub) and const_val(sub[0][3]) == W['header_size'], 'C06.R2', 'len=slice-minus-header', site(b), 'payload length = %s' % (show(sub[0]) if sub else None))
+            for k, d in enumerate(writes):
+                R.check(d['bb'] not in rej and d['bb'] not in around, 'C06.R2', '%s:before-prefix-write-%d' % (nm, k), site(b, d['bb']), 'prefix write (%s at offset %s) happens only after the %s test accepted' % (d['how'], d['off'], nm))
+        R.check(lim_t is not None and is_paylen(lim_t[1]['len']), 'C06.R2', 'len=slice-minus-header', site(b), 'payload length = slice length - HEADER_SIZE')
 
     # ---------------------------------------------------------------- R3 no collateral loss
     R.describe('C06.R3', 'EncodedBytes::poll_next: an error item is returned only with an empty output buffer (otherwise it is stashed and the buffered frames are flushed first); after a failed encode_item the partial frame is cut off before flushing')
@@ -162,69 +188,74 @@ def run(R):
             R.saw(co)
             for mb, mt in co.calls(pat='Grpc::<T>::map_response'):
                 n += 1
-                names = field_names(co.origin(mt['args'][4]))
-                R.check(names[-1:] == ['max_encoding_message_size'], 'C06.R4', 'srv:%s:encode-limit' % h, site(co, mb), 'max_message_size argument = %s' % show(co.origin(mt['args'][4])))
+                mrp = limit_pos(tonic, 'server::grpc::Grpc::<T>::map_response')
+                names = field_names(co.origin(mt['args'][mrp]))
+                R.check(names[-1:] == ['max_encoding_message_size'], 'C06.R4', 'srv:%s:encode-limit' % h, site(co, mb), 'max_message_size argument = %s' % show(co.origin(mt['args'][mrp])))
         R.floor('C06.R4', 'map_response sites', n, 6)
         mr = tonic.body('server::grpc::Grpc::<T>::map_response')
         nb, nt = mr.call1(name='new_server')
-        a = mr.origin(nt['args'][4])
-        R.check(a[0] == 'arg' and a[2] == 'max_message_size', 'C06.R4', 'srv:map_response->encoder', site(mr, nb), 'EncodeBody::new_server limit = %s' % show(a))
+        a = mr.origin(nt['args'][limit_pos(tonic, 'codec::encode::EncodeBody::<T, U>::new_server')])
+        R.check(is_limit_param(mr, a), 'C06.R4', 'srv:map_response->encoder', site(mr, nb), 'EncodeBody::new_server limit = %s' % show(a))
         for nm in ('map_request_unary::{closure#0}', 'map_request_streaming'):
             mb_ = tonic.body('server::grpc::Grpc::<T>::' + nm)
             fam = [mb_] + [c for c in tonic.children(mb_) if c.kind == 'closure']
             for fb in fam:
                 for bb, t in fb.calls(name='new_request'):
-                    names = field_names(fb.origin(t['args'][3]))
-                    R.check(names[-1:] == ['max_decoding_message_size'], 'C06.R4', 'srv:%s:decode-limit' % nm.split(':')[0], site(fb, bb), 'limit = %s' % show(fb.origin(t['args'][3])))
+                    nrp = limit_pos(tonic, 'codec::decode::Streaming::<T>::new_request')
+                    names = field_names(fb.origin(t['args'][nrp]))
+                    R.check(names[-1:] == ['max_decoding_message_size'], 'C06.R4', 'srv:%s:decode-limit' % nm.split(':')[0], site(fb, bb), 'limit = %s' % show(fb.origin(t['args'][nrp])))
         for ctor, idx in (('new_server', 4), ('new_client', 3)):
             cb = tonic.body('codec::encode::EncodeBody::<T, U>::' + ctor)
             R.saw(cb)
             bb, t = cb.call1(pat='EncodedBytes', name='new')
-            a = cb.origin(t['args'][4])
-            R.check(a[0] == 'arg' and a[2] == 'max_message_size', 'C06.R4', 'EncodeBody::%s->EncodedBytes' % ctor, site(cb, bb), 'limit = %s' % show(a))
+            a = cb.origin(t['args'][limit_pos(tonic, 'codec::encode::EncodedBytes::<T, U>::new')])
+            R.check(is_limit_param(cb, a), 'C06.R4', 'EncodeBody::%s->EncodedBytes' % ctor, site(cb, bb), 'limit = %s' % show(a))
         eb = tonic.body('codec::encode::EncodedBytes::<T, U>::new')
         for bb, i, p, a, ops in mirlib.aggregates(eb, 'encode::EncodedBytes'):
             v = eb.origin(ops[a['fields'].index('max_message_size')])
-            R.check(v[0] == 'arg' and v[2] == 'max_message_size', 'C06.R4', 'EncodedBytes.max_message_size', site(eb, bb, i), 'field = %s' % show(v))
+            R.check(is_limit_param(eb, v), 'C06.R4', 'EncodedBytes.max_message_size', site(eb, bb, i), 'field = %s' % show(v))
         pn = tonic.body(re.compile(r'codec::encode::EncodedBytes<T, U> as .*Stream>::poll_next$'))
         bb, t = pn.call1(name='encode_item')
-        R.check('max_message_size' in show(pn.origin(t['args'][4])), 'C06.R4', 'poll_next->encode_item', site(pn, bb), 'limit = %s' % show(pn.origin(t['args'][4])))
+        eip = limit_pos(tonic, 'codec::encode::encode_item')
+        R.check(field_names(pn.origin(t['args'][eip]))[-1:] == ['max_message_size'], 'C06.R4', 'poll_next->encode_item', site(pn, bb), 'limit = %s' % show(pn.origin(t['args'][eip])))
         ei = tonic.body('codec::encode::encode_item')
         bb, t = ei.call1(name='finish_encoding')
-        a = ei.origin(t['args'][1])
-        R.check(a[0] == 'arg' and a[2] == 'max_message_size', 'C06.R4', 'encode_item->finish_encoding', site(ei, bb), 'limit = %s' % show(a))
+        a = ei.origin(t['args'][limit_pos(tonic, 'codec::encode::finish_encoding')])
+        R.check(is_limit_param(ei, a), 'C06.R4', 'encode_item->finish_encoding', site(ei, bb), 'limit = %s' % show(a))
         # decoder constructors
         for ctor, idx in (('new_request', 3), ('new_response', 4)):
             cb = tonic.body('codec::decode::Streaming::<T>::' + ctor)
             bb, t = cb.call1(pat='Streaming::<T>::new')
-            a = cb.origin(t['args'][4])
-            R.check(a[0] == 'arg' and a[2] == 'max_message_size', 'C06.R4', 'Streaming::%s->new' % ctor, site(cb, bb), 'limit = %s' % show(a))
+            a = cb.origin(t['args'][limit_pos(tonic, 'codec::decode::Streaming::<T>::new')])
+            R.check(is_limit_param(cb, a), 'C06.R4', 'Streaming::%s->new' % ctor, site(cb, bb), 'limit = %s' % show(a))
         sn = tonic.body('codec::decode::Streaming::<T>::new')
         for bb, i, p, a, ops in mirlib.aggregates(sn, 'decode::StreamingInner'):
             v = sn.origin(ops[a['fields'].index('max_message_size')])
-            R.check(v[0] == 'arg' and v[2] == 'max_message_size', 'C06.R4', 'StreamingInner.max_message_size', site(sn, bb, i), 'field = %s' % show(v))
+            R.check(is_limit_param(sn, v), 'C06.R4', 'StreamingInner.max_message_size', site(sn, bb, i), 'field = %s' % show(v))
         # client
         st = tonic.body('client::grpc::Grpc::<T>::streaming::{closure#0}')
         fam = [st] + [c for c in tonic.bodies if c.path.startswith(st.path + '::') and c.kind == 'closure']
         for fb in fam:
             for bb, t in fb.calls(name='new_client'):
-                names = field_names(fb.origin(t['args'][3]))
-                R.check(names[-1:] == ['max_encoding_message_size'], 'C06.R4', 'cli:encode-limit', site(fb, bb), 'limit = %s' % show(fb.origin(t['args'][3])))
+                ncp = limit_pos(tonic, 'codec::encode::EncodeBody::<T, U>::new_client')
+                names = field_names(fb.origin(t['args'][ncp]))
+                R.check(names[-1:] == ['max_encoding_message_size'], 'C06.R4', 'cli:encode-limit', site(fb, bb), 'limit = %s' % show(fb.origin(t['args'][ncp])))
         cr = tonic.body('client::grpc::Grpc::<T>::create_response')
         fam = [cr] + [c for c in tonic.children(cr) if c.kind == 'closure']
         k = 0
         for fb in fam:
             for bb, t in fb.calls(name='new_response'):
                 k += 1
-                names = field_names(fb.origin(t['args'][4]))
-                R.check(names[-1:] == ['max_decoding_message_size'], 'C06.R4', 'cli:decode-limit', site(fb, bb), 'limit = %s' % show(fb.origin(t['args'][4])))
+                nrp2 = limit_pos(tonic, 'codec::decode::Streaming::<T>::new_response')
+                names = field_names(resolve_env(tonic, fb, fb.origin(t['args'][nrp2])))
+                R.check(names[-1:] == ['max_decoding_message_size'], 'C06.R4', 'cli:decode-limit', site(fb, bb), 'limit = %s' % show(fb.origin(t['args'][nrp2])))
         R.floor('C06.R4', 'client new_response sites', k, 1)
         # every decoder the client builds for a response — also for a response whose headers already carry grpc-status —
         # gets the configured limit: follow each Streaming constructor called here down to Streaming::new
         def limit_source(cb_, depth=0):
             """index of the argument of constructor body cb_ that reaches Streaming::new's max_message_size, or None"""
             if cb_.path.endswith('Streaming::<T>::new'):
-                return 5
+                return param_of_type(cb_, LIMIT_TY)
             for bb_, t_ in cb_.calls(pat='codec::decode::Streaming'):
                 if not (t_.get('name') or '').startswith('new') or depth > 4:
                     continue
@@ -245,7 +276,7 @@ def run(R):
                 kk += 1
                 callee = [x for x in tonic.bodies if x.kind == 'fn' and x.path.endswith('Streaming::<T>::' + t['name'])]
                 idx = limit_source(callee[0]) if callee else None
-                lim = fb.origin(t['args'][idx - 1]) if idx and idx - 1 < len(t['args']) else None
+                lim = resolve_env(tonic, fb, fb.origin(t['args'][idx - 1])) if idx and idx - 1 < len(t['args']) else None
                 ok = lim is not None and field_names(lim)[-1:] == ['max_decoding_message_size']
                 R.check(ok, 'C06.R4', 'cli:every-decoder-gets-limit:%s' % t['name'], site(fb, bb),
                         'Streaming::%s: the value reaching Streaming::new(max_message_size) is %s' % (t['name'], show(lim) if lim is not None else 'a constant inside the constructor (the 4 MiB default replaces the configured limit)'))
